@@ -160,6 +160,8 @@ static void dist_ops(World &w, const Op &o, int ri) {
     if (!h) viol0(w, own, "dist.valid_refused", "valid distances_add_create(kind 0x%lx) failed, errno %d", kind, e);
     // objects: homogeneous or mixed subsets, the rejected sizes 0 and 1 included
     int want = (int)(o.u("n") % 7); bool mixed = o.u("mix") % 4 == 0; int ty0 = DTYPES[o.u("ty") % 8]; Rng g(o.u("vs"));
+    // Groups on several levels are the one type whose objects are looked up level by level (by gp_index) after dup / XML import / restrict
+    if (!mixed && o.u("mix") % 3 == 1 && hwloc_get_type_depth(t, HWLOC_OBJ_GROUP) == HWLOC_TYPE_DEPTH_MULTIPLE) { ty0 = HWLOC_OBJ_GROUP; r.count("probe.dist_over_multi_level_groups"); }
     std::vector<hwloc_obj_t> objs;
     for (int i = 0; i < want; i++) { int ty = mixed ? DTYPES[g.below(8)] : ty0; hwloc_obj_t x = sel_type(R, g.next(), ty); if (!x) continue; if (std::find(objs.begin(), objs.end(), x) == objs.end()) objs.push_back(x); }
     unsigned nb = (unsigned)objs.size(); std::vector<hwloc_uint64_t> vals((size_t)nb * nb + 1);
